@@ -157,5 +157,8 @@ def nontrivial(case, result):
 def prebuild(root):
     """translators: regenerate coq/Generated/DigitGen.v from /repo/src/digit.rs (proved equal to Model/Digit.v in
     Proofs/DigitTie.v) and coq/Generated/Glue.v from the one-line projection functions of /repo/src (proved equal to the
-    hand-written model in Proofs/GlueTie.v); the first translator error is returned"""
-    return run_translator(root, "rs2v_digit.py") or run_translator(root, "rs2v_glue.py", "C03") or run_translator(root, "rs2v_loops.py", "C03")
+    hand-written model in Proofs/GlueTie.v), coq/Generated/Loops.v (Proofs/LoopsTieDiv.v) and coq/Generated/DivGen.v from
+    /repo/src/buint/div.rs (Knuth D, proved equal to Model/Div.v: basecase_div_rem in Proofs/DivGenTie.v); the first
+    translator error is returned"""
+    return (run_translator(root, "rs2v_digit.py") or run_translator(root, "rs2v_glue.py", "C03") or run_translator(root, "rs2v_loops.py", "C03")
+            or run_translator(root, "rs2v_div.py", "C03"))
